@@ -83,29 +83,31 @@ func genFor(prop, tier string, seed int64, phase string) {
 		if q {
 			runEncode(tier, seed, set("latin"), pickLangs(2), false)
 			runEncode(tier, seed, set("last", "hash", "runs"), pickLangs(1), false)
-			runEncode(tier, seed, set("random"), pickLangs(10), false)
+			runEncode(tier, seed, set("random", "extremal"), pickLangs(10), false)
 		} else {
-			runEncode(tier, seed, set("latin", "last", "hash", "runs", "random"), pickLangs(10), false)
+			runEncode(tier, seed, set("latin", "last", "hash", "runs", "random", "extremal"), pickLangs(10), false)
 		}
 	case "C05":
 		if q {
 			runEncode(tier, seed, set("flips"), pickLangs(3), false)
 			runEncode(tier, seed, set("latin", "runs"), pickLangs(1), false)
+			runEncode(tier, seed, set("extremal"), pickLangs(10), false)
 		} else {
-			runEncode(tier, seed, set("flips", "latin", "runs", "last", "random"), pickLangs(10), false)
+			runEncode(tier, seed, set("flips", "latin", "runs", "last", "random", "extremal"), pickLangs(10), false)
 		}
 	case "C02":
 		if q {
 			runEncode(tier, seed, set("runs"), pickLangs(2), true)
 			runEncode(tier, seed, set("latin", "hash"), pickLangs(1), true)
-			runEncode(tier, seed, set("random"), pickLangs(10), true)
+			runEncode(tier, seed, set("random", "extremal"), pickLangs(10), true)
 			runSweeps(tier, seed, newRng(seed, "c02l").perm(10)[:2], 2)
 		} else {
-			runEncode(tier, seed, set("runs", "latin", "hash", "random", "last"), pickLangs(10), true)
+			runEncode(tier, seed, set("runs", "latin", "hash", "random", "last", "extremal"), pickLangs(10), true)
 			runSweeps(tier, seed, all10, 4)
 		}
 		runGenerated(tier, seed)
 	case "C03":
+		runUniform(seed, all10, "uniform")
 		if q {
 			runSweeps(tier, seed, all10, 1)
 			runMutations(tier, seed, newRng(seed, "c03l").perm(10)[:2], true)
@@ -119,6 +121,7 @@ func genFor(prop, tier string, seed int64, phase string) {
 		}
 	case "C15":
 		runDefects(tier, seed, all10)
+		runUniform(seed, all10, "uniform")
 		if q {
 			runMutations(tier, seed, all10, false)
 		} else {
@@ -131,6 +134,9 @@ func genFor(prop, tier string, seed int64, phase string) {
 		runListCover(tier, seed)
 		runListSource()
 	case "C09":
+		if phase != "extreme" { // the five accepted sizes must succeed whatever the entropy selects: longest / shortest words
+			runEncode(tier, seed, set("extremal", "runs"), pickLangs(10), false)
+		}
 		runGates(tier, seed, phase)
 	case "C14":
 		runRobust(tier, seed, phase)
